@@ -1,0 +1,59 @@
+//go:build verif
+// +build verif
+
+// Contracts for deductive verification (govc, /verif). Comment-only file.
+
+package rule
+
+// ======================= C11: rule evaluation =======================
+// Weight of a name in a rule (0 for non-members and for rules without weights).
+//@ macro aclWeight(acl, name) = acl == nil || acl.Pm == nil || len(acl.AksWeight) == 0 ? 0.0 : (in(acl.AksWeight, name) ? acl.AksWeight[name] : 0.0)
+// Sum over the first k children of the weights of those whose status is Success (float64 as reals).
+//@ spec func wsum(children []*ptree.PermNode, acl *protos.Acl, k int) real =
+//@     k <= 0 ? 0.0 : wsum(children, acl, k - 1) + (children[k - 1].Status == 2 ? aclWeight(acl, children[k - 1].Name) : 0.0)
+
+//@ func ThresholdValidator.findWeightInACL
+//@   property C11
+//@   ensures weight_of_member: result == aclWeight(acl, name)
+
+// A threshold rule is satisfied exactly when the weights of the verified (Success)
+// children that are members of the rule reach the accept value; unverified
+// children and non-members contribute nothing.
+//@ func ThresholdValidator.Validate
+//@   property C11
+//@   ensures nil_node_rejected: pnode == nil ==> !result0 && result1 != nil
+//@   ensures threshold: pnode != nil ==> result1 == nil && result0 == (wsum(pnode.Children, pnode.ACL, len(pnode.Children)) >= pnode.ACL.Pm.AcceptValue)
+//@   loop 1 invariant partial_sum: 0 <= $i && $i <= len(pnode.Children) && weightSum == wsum(pnode.Children, pnode.ACL, $i) && pnode != nil
+
+// akSigned(nodes, name): the first node with that name exists and is verified.
+//@ spec func akSigned(nodes []*ptree.PermNode, name string) bool = exists j int :: 0 <= j && j < len(nodes) && nodes[j].Name == name && nodes[j].Status == 2 && (forall k int :: 0 <= k && k < j ==> nodes[k].Name != name)
+
+//@ func AKSetsValidator.findAkInNodeList
+//@   property C11
+//@   ensures first_match: result != nil ==> (exists j int :: 0 <= j && j < len(signedAks) && signedAks[j] == result && result.Name == name && (forall k int :: 0 <= k && k < j ==> signedAks[k].Name != name))
+//@   ensures none: result == nil ==> (forall k int :: 0 <= k && k < len(signedAks) ==> signedAks[k].Name != name || signedAks[k] == nil)
+//@   requires nodes_non_nil: forall k int :: 0 <= k && k < len(signedAks) ==> signedAks[k] != nil
+//@   loop 1 invariant scanned: 0 <= $i && $i <= len(signedAks) && pnode == nil && (forall k int :: 0 <= k && k < $i ==> signedAks[k].Name != name)
+
+// A key set is satisfied exactly when it is non-empty and every listed key is a verified signer.
+//@ func AKSetsValidator.validateAkSet
+//@   property C11
+//@   requires nodes_non_nil: forall k int :: 0 <= k && k < len(signedAks) ==> signedAks[k] != nil
+//@   ensures all_keys_signed: result == (len(set.Aks) > 0 && len(signedAks) > 0 && (forall i int :: 0 <= i && i < len(set.Aks) ==> akSigned(signedAks, set.Aks[i])))
+//@   loop 1 invariant checked: 0 <= $i && $i <= len(set.Aks) && isValid && len(set.Aks) > 0 && len(signedAks) > 0 && (forall i int :: 0 <= i && i < $i ==> akSigned(signedAks, set.Aks[i]))
+
+// A key-set rule is satisfied exactly when some listed set is wholly contained in the verified signers.
+//@ macro akSetSigned(set, nodes) = len(set.Aks) > 0 && len(nodes) > 0 && (forall i int :: 0 <= i && i < len(set.Aks) ==> akSigned(nodes, set.Aks[i]))
+//@ func AKSetsValidator.Validate
+//@   property C11
+//@   requires nodes_non_nil: pnode != nil ==> (forall k int :: 0 <= k && k < len(pnode.Children) ==> pnode.Children[k] != nil)
+//@   requires sets_non_nil: pnode != nil && pnode.ACL != nil && pnode.ACL.AkSets != nil ==> (forall n string :: in(pnode.ACL.AkSets.Sets, n) ==> pnode.ACL.AkSets.Sets[n] != nil)
+//@   ensures nil_node_rejected: pnode == nil ==> !result0 && result1 != nil
+//@   ensures empty_rule_accepts: pnode != nil && pnode.ACL == nil ==> result0
+//@   ensures some_set_signed: pnode != nil && pnode.ACL != nil ==> result0 == (pnode.ACL.AkSets != nil && (exists n string :: in(pnode.ACL.AkSets.Sets, n) && akSetSigned(pnode.ACL.AkSets.Sets[n], pnode.Children)))
+//@   loop 1 invariant none_yet: pnode != nil && pnode.ACL != nil && pnode.ACL.AkSets != nil && (forall n string :: in($visited, n) ==> in(pnode.ACL.AkSets.Sets, n) && !akSetSigned(pnode.ACL.AkSets.Sets[n], pnode.Children))
+
+// Monotonicity: with non-negative weights the partial sums never decrease, so a
+// further verified signer never turns acceptance into rejection.
+//@ lemma threshold_monotone: forall children []*ptree.PermNode, acl *protos.Acl, k int :: k >= 0 && aclWeight(acl, children[k].Name) >= 0.0 ==> wsum(children, acl, k + 1) >= wsum(children, acl, k)
+//@   property C11
